@@ -80,6 +80,19 @@ def _alarm(*a):
     raise _TO()
 
 
+def arm(seconds):
+    """time limit of one guarded call: `seconds` of CPU time of this process (ITIMER_PROF: a loaded machine does not turn a
+    fast call into a 'timeout' observation) with a wall-clock backstop 24 times as long"""
+    signal.signal(signal.SIGPROF, _alarm)
+    signal.setitimer(signal.ITIMER_PROF, seconds)
+    signal.alarm(int(seconds * 24))
+
+
+def disarm():
+    signal.setitimer(signal.ITIMER_PROF, 0)
+    signal.alarm(0)
+
+
 def exc_key(x):
     """(exception type, innermost miasmx function, normalised source line)"""
     tb = traceback.extract_tb(x.__traceback__)
@@ -98,24 +111,24 @@ def exc_key(x):
 def guarded(fn, arg, seconds=5):
     """run fn(arg) under an alarm; returns ('ok', result) | ('timeout', None) | ('exc', key)"""
     old = signal.signal(signal.SIGALRM, _alarm)
-    signal.alarm(seconds)
+    arm(seconds)
     try:
         r = fn(arg)
-        signal.alarm(0)
+        disarm()
         return 'ok', r
     except _TO:
         return 'timeout', None
     except RecursionError as x:
-        signal.alarm(0)
+        disarm()
         return 'exc', {'exc': 'RecursionError', 'func': '', 'line': ''}
     except MemoryError:
-        signal.alarm(0)
+        disarm()
         return 'exc', {'exc': 'MemoryError', 'func': '', 'line': ''}
     except Exception as x:
-        signal.alarm(0)
+        disarm()
         return 'exc', exc_key(x)
     finally:
-        signal.alarm(0)
+        disarm()
         signal.signal(signal.SIGALRM, old)
 
 
